@@ -238,6 +238,7 @@ def _row(table, isa, mn, pat):
 
 # ---------------------------------------------------------------- instance enumeration
 QUICK_REGS = [0, 1, 2, 5, 8, 15, 16, 23, 29, 30, 31]
+PAIR_REGS = [0, 1, 2, 4, 7, 8, 15, 16, 27, 29, 30, 31]      # thorough: every pair of these in the one- and two-register classes
 
 
 def enumerate_instances(isa, cname, cls, table, rng, thorough=False):
@@ -312,7 +313,7 @@ def enumerate_instances(isa, cname, cls, table, rng, thorough=False):
                 x[n] = val["v"]
                 add(x, "%s:%s" % (n, "in" if val["inside"] else "out"), valid=val["inside"])
             if thorough:
-                for _ in range(24):
+                for _ in range(12):
                     x = dict(b)
                     x[n] = rng.randrange(row["lo"], row["hi"] + 1)
                     for m in regs:
@@ -331,7 +332,7 @@ def enumerate_instances(isa, cname, cls, table, rng, thorough=False):
                 x[n] = _imm_m(isa, "", val["v"])
                 add(x, "%s:%s" % (n, "in" if val["inside"] else "out"), valid=val["inside"])
             if thorough:
-                for _ in range(24):
+                for _ in range(12):
                     x = dict(b)
                     x[n] = _imm_m(isa, "", rng.randrange(irow["lo"], irow["hi"] + 1))
                     add(x, "%s:random" % n)
@@ -365,9 +366,9 @@ def enumerate_instances(isa, cname, cls, table, rng, thorough=False):
     if thorough and regs:
         import itertools
         if len(regs) <= 2:
-            combos = list(itertools.product(range(32), repeat=len(regs)))
+            combos = list(itertools.product(PAIR_REGS, repeat=len(regs)))
         else:
-            combos = [tuple(rng.randrange(32) for _ in regs) for _ in range(200)]
+            combos = [tuple(rng.randrange(32) for _ in regs) for _ in range(64)]
         for combo in combos:
             x = dict(b)
             for n, r in zip(regs, combo):
@@ -511,6 +512,8 @@ def enc_records(prop, isa, table, rng, thorough=False, paths=("enc",), rig=None,
                 skipped[k] = skipped.get(k, 0) + 1
             continue
         for path in paths:
+            if path != "enc" and inst["tag"].startswith(("regs", "diag")):
+                continue                                # the register products go through encode() only
             if path == "enc":
                 out = observe_encode(ins, inst["sym"], inst["place"])
             elif haslab:
@@ -631,7 +634,8 @@ def llvm_crosscheck_mips(ctx, byte_lists, limit=40000):
         mn, ops = t
         sym = 0
         if _MIPS_BR.match(mn) and ops and ops[-1][0] == "i":       # the reference prints the branch offset / jump target
-            sym = ops[-1][1] if mn in ("j", "jal") else place + 4 + ops[-1][1]
+            # llvm-mc prints the target of j / jal and, for branches, target - address of the branch (offset + 4)
+            sym = ops[-1][1] if mn in ("j", "jal") else place + ops[-1][1]
             ops[-1] = ["l", 0, "L_ref"]
         recs.append(dict(base, mn=mn, ops=ops, sym=sym, text=text))
     slim = [{k: v for k, v in r.items() if k not in ("key", "text")} for r in recs]
@@ -732,7 +736,8 @@ def c08_part(ctx, thorough, isa):
         "shift amount / displacement / label address enumerated by TLC (Risc3_MC tables: in-range ones are judged, out-of-range "
         "ones only counted when accepted), or1k hi() / lo() of boundary addresses, microblaze label macros (imm prefix + "
         "instruction) at displacements where a 16-bit half carries}; bytes = encode() / render() (+ own relocation applied; "
-        "thorough: also assembler + linker on the printed text, all register pairs, seeded random registers / immediates); TLC: "
+        "thorough: all 32 register numbers per slot, every pair of 12 register numbers in the one- / two-register classes, 64 seeded random "
+        "triples, random immediates, and the assembler + linker on the printed text of the sweeps); TLC: "
         "Core(Decode(bytes)) = Core(Asm(printed text)); distinct = distinct (class, path, printed text, label address, place)")
     if owner is None:
         fams = list(LAWS) if thorough else ["mips.w", "mips.ln", "mips.sx", "or1k.w", "or1k.ln", "or1k.hl", "mb.w", "mb.ln", "mb.pre"]
